@@ -545,6 +545,41 @@ def read_bitmap(
         return read_bitmap_file(f, pack_index=pack_index, pack_checksum=pack_checksum)
 
 
+def _read_exactly(f: IO[bytes], size: int, what: str) -> bytes:
+    """Read size bytes, without trusting size for the allocation.
+
+    A corrupt length field must not make ``read()`` reserve gigabytes (or
+    raise MemoryError) for a file of a few hundred bytes.
+    """
+    chunks = []
+    remaining = size
+    while remaining > 0:
+        chunk = f.read(min(remaining, 1 << 20))
+        if not chunk:
+            raise ValueError(f"Incomplete {what}")
+        chunks.append(chunk)
+        remaining -= len(chunk)
+    return b"".join(chunks)
+
+
+def _check_bit_count(
+    bit_count_bytes: bytes, pack_index: "PackIndex | None", what: str
+) -> None:
+    """Refuse an EWAH bitmap that claims more bits than the pack has objects.
+
+    One 8-byte run word can stand for 2**32 set bits, which the decoder
+    expands one by one: without this bound a 76-byte file exhausts memory.
+    """
+    if pack_index is None:
+        return
+    (bit_count,) = struct.unpack(">I", bit_count_bytes)
+    # git rounds the bit count of some bitmaps up to a whole 64-bit word
+    if bit_count > (len(pack_index) + 63) // 64 * 64:
+        raise ValueError(
+            f"{what} covers {bit_count} objects, the pack has {len(pack_index)}"
+        )
+
+
 def read_bitmap_file(
     f: IO[bytes],
     pack_index: "PackIndex | None" = None,
@@ -623,12 +658,11 @@ def read_bitmap_file(
         if len(bit_count_bytes) < 4 or len(word_count_bytes) < 4:
             raise ValueError(f"Missing type bitmap {i} header")
 
+        _check_bit_count(bit_count_bytes, pack_index, f"type bitmap {i}")
         word_count = struct.unpack(">I", word_count_bytes)[0]
 
         # Read compressed words
-        words_data = f.read(word_count * 8)
-        if len(words_data) < word_count * 8:
-            raise ValueError(f"Incomplete type bitmap {i} data")
+        words_data = _read_exactly(f, word_count * 8, f"type bitmap {i} data")
 
         # Read RLW position
         rlw_pos_bytes = f.read(4)
@@ -667,12 +701,11 @@ def read_bitmap_file(
         if len(bit_count_bytes) < 4 or len(word_count_bytes) < 4:
             raise ValueError("Incomplete bitmap entry EWAH header")
 
+        _check_bit_count(bit_count_bytes, pack_index, "bitmap entry")
         word_count = struct.unpack(">I", word_count_bytes)[0]
 
         # Read compressed words
-        words_data = f.read(word_count * 8)
-        if len(words_data) < word_count * 8:
-            raise ValueError("Incomplete bitmap entry EWAH words")
+        words_data = _read_exactly(f, word_count * 8, "bitmap entry EWAH words")
 
         # Read RLW position
         rlw_pos_bytes = f.read(4)
